@@ -173,7 +173,7 @@ Proof.
     rewrite app_nil_r. f_equal. lia.
   - inversion Hv as [|? ? Hx Hv']; subst. cbn [xe_loop].
     assert (E : (ii <? sz) = true) by (apply N.ltb_lt; lia). rewrite E, Hx.
-    assert (E2 : (nv <? vcap) = true) by (apply N.ltb_lt; lia). rewrite E2.
+    assert (E2 : (nv + 1 <? vcap) = true) by (apply N.ltb_lt; lia). rewrite E2.
     rewrite IH by (try assumption; lia). cbn [rev]. rewrite <- app_assoc. cbn [app]. f_equal. lia.
 Qed.
 
@@ -188,7 +188,7 @@ Proof.
     rewrite xe_val by (try assumption; lia). cbn [rev app]. rewrite app_nil_r. f_equal. lia.
   - inversion Hd as [|? ? Hx Hd']; subst. cbn [xe_loop].
     assert (E : (ii <? sz) = true) by (apply N.ltb_lt; lia). rewrite E, Hx.
-    assert (E2 : (nt <? tcap) = true) by (apply N.ltb_lt; lia). rewrite E2.
+    assert (E2 : (nt + 1 <? tcap) = true) by (apply N.ltb_lt; lia). rewrite E2.
     rewrite IH by (try assumption; lia). cbn [rev]. rewrite <- app_assoc. cbn [app]. f_equal. lia.
 Qed.
 
